@@ -300,7 +300,7 @@ def execute(case):
         if kind == 'copy':
             c = c.copy(); res.fault('F-restore'); res.probe('restore_step')
         elif kind == 'pickle':
-            c = graphsim.restore(c, 'pickle', res); res.fault('F-restore'); res.probe('restore_step')
+            c = graphsim.restore(c, ['pickle', 'pickle0', 'deepcopy'][st[1] % 3], res); res.fault('F-restore'); res.probe('restore_step')
         elif kind == 'elim':
             c.eliminate_1to1_forks(); res.probe('elim_step')
         elif kind == 'resolve':
